@@ -1102,7 +1102,15 @@ pub fn c04(tier: Tier) -> ! {
         v["items"][2]["radius"] = json!(0.45);
         v
     };
-    let probes: Vec<(&str, Value)> = vec![("hard", hard.json()), ("lj", lj), ("mol", mol)];
+    let shuffled = {
+        // the same scalene pentagon with its closed outline listed out of order
+        let mut v = hard.json();
+        let items = v["items"].as_array_mut().unwrap();
+        items.swap(1, 3);
+        items.swap(0, 2);
+        v
+    };
+    let probes: Vec<(&str, Value)> = vec![("hard", hard.json()), ("lj", lj), ("mol", mol), ("outline", shuffled)];
     let mut jobs = vec![];
     for g in GROUP_NAMES.iter() {
         for (kind, sj) in probes.iter() {
@@ -1131,7 +1139,7 @@ pub fn c04(tier: Tier) -> ! {
                                 let st = AnyState::from_json(&tpl.with(&p)).unwrap_or_else(|e| machinery_error(&e));
                                 evals += 1;
                                 // "mol": the copies as the crate's own shape transform places them
-                                let verdict = if kind == "mol" { c04_judge_sets(group, &st.placed_points(), &p) } else { c04_judge(group, &st.cartesian(), &pts, &p) };
+                                let verdict = if kind == "mol" || kind == "outline" { c04_judge_sets(group, &st.placed_points(), &p) } else { c04_judge(group, &st.cartesian(), &pts, &p) };
                                 if let Some(what) = verdict {
                                     fc += 1;
                                     if fails.len() < 2 {
@@ -1146,7 +1154,7 @@ pub fn c04(tier: Tier) -> ! {
         }
         // states produced by the constructors: family and initial cell
         for spec in [ShapeSpec::Polygon(4), ShapeSpec::Trimer(0.637556, 120., 1.), ShapeSpec::LjTrimer(0.637556, 120., 1.), ShapeSpec::LjCircle].iter() {
-            if (kind == "lj") != spec.is_lj() || kind == "mol" {
+            if (kind == "lj") != spec.is_lj() || kind == "mol" || kind == "outline" {
                 continue;
             }
             let st = AnyState::from_group(group, spec);
